@@ -315,6 +315,12 @@ def replay(workdir):
             in_h = re.search(r'->set' + prop[0].upper() + prop[1:] + r'\(', h) is not None
             if in_ui != const or in_h == const:
                 failed.append({'probe': 'partition', 'property': prop, 'in_ui': in_ui, 'in_header': in_h, 'why': 'a binding is consumed by both passes or by none'})
+    # attached constant bindings of a grid layout: each one alone must reach the .ui
+    for attr, xml in (('rowMinimumHeight', 'rowminimumheight'), ('columnMinimumWidth', 'columnminimumwidth'), ('rowStretch', 'rowstretch'), ('columnStretch', 'columnstretch')):
+        text = f'import qmluic.QtWidgets\nQWidget {{\n QGridLayout {{\n  QLabel {{ id: lab; QLayout.{attr}: 7 }}\n }}\n}}\n'
+        r, files = gen(os.path.join(workdir, 'attached-' + attr), text)
+        if r.returncode != 0 or f'{xml}="7"' not in files.get('doc.ui', ''):
+            failed.append({'probe': 'attached-' + attr, 'rc': r.returncode, 'why': f'the accepted constant binding QLayout.{attr}: 7 does not appear in the .ui'})
     with open(os.path.join(workdir, 'README.txt'), 'w') as f:
         f.write('qmluic generate-ui --foreign-types /repo/contrib/metatypes Doc.qml in each sub-directory (err-*: with stale outputs in place)\n' + json.dumps(failed, indent=1) + '\n')
     return bool(failed), {'failed_probes': failed}
@@ -328,6 +334,10 @@ def run(res, args):
            c14.predicate_obligation(fns, consts), c14.never_dropped_obligation(fns, consts)]
     for ob in obs[3:]:
         ob['name'] = ob['name'].replace('c14_', 'c04_')
+    # constant attached layout values (accepted by the constant pass) must reach the .ui: shared with C12
+    for ob in O.c12_xml_attributes(fns, consts):
+        ob['name'] = ob['name'].replace('c12_', 'c04_')
+        obs.append(ob)
 
     def rp(ob, d):
         rep, info = replay(d)
